@@ -104,6 +104,31 @@ func loadProgView(root string, bc BuildConfig, inline bool) (*Prog, error) {
 	if nerr > 0 {
 		return nil, cerrf("%d load/type errors under config %s, first: %s", nerr, bc.Name, first)
 	}
+	// renamed unexported fields and struct types are read under their reference names (rename.go)
+	if ov, notes := renameBackOverlay(pkgs); len(ov) > 0 {
+		cfg.Overlay = ov
+		pkgs2, err2 := packages.Load(cfg, "./...")
+		bad := err2 != nil || len(pkgs2) != len(pkgs)
+		for _, p2 := range pkgs2 {
+			if len(p2.Errors) > 0 {
+				bad = true
+			}
+		}
+		if !bad {
+			pkgs = pkgs2
+			for _, n := range notes {
+				dup := false
+				for _, l := range inlineLog {
+					if l == n {
+						dup = true
+					}
+				}
+				if !dup {
+					inlineLog = append(inlineLog, n)
+				}
+			}
+		}
+	}
 	sort.Slice(pkgs, func(i, j int) bool { return pkgs[i].PkgPath < pkgs[j].PkgPath })
 	prog, spkgs := ssautil.Packages(pkgs, ssa.InstantiateGenerics)
 	prog.Build()
